@@ -213,6 +213,34 @@ class Rec:
                 self.ratio = r
 
 
+def poison(value, max_elems=96, copies=8):
+    """Fill NumPy's small-block free lists with `value`: arrays of 1..max_elems float64 are created,
+    filled and released, so that a subsequent np.empty of such a size receives memory holding
+    `value`.  Two identical calls made after different poisons must still agree; code that reads
+    uninitialised memory (np.empty used as np.zeros) does not."""
+    for k in range(1, max_elems + 1):
+        blocks = [np.full(k, value) for _ in range(copies)]
+        del blocks
+
+
+def chord_noise(p, l, r):
+    """Rounding-noise allowance for the library's distance of the interior points of p[l..r] to
+    their chord, RELATIVE to the magnitudes that actually enter the computation (no absolute
+    floor): |cross| is a difference of two products, |dx*uy| and |dy*ux|; the clamped parallel
+    component only matters for points whose projection falls outside the chord."""
+    a, b = p[l], p[r]
+    ch = np.hypot(b[0] - a[0], b[1] - a[1])
+    if not (ch > 0):
+        return 64 * EPS * float(np.max(np.abs(p[l:r + 1] - a)))
+    ux, uy = (b[0] - a[0]) / ch, (b[1] - a[1]) / ch
+    d = p[l:r + 1] - a
+    cross_terms = np.abs(d[:, 0] * uy) + np.abs(d[:, 1] * ux)
+    par = d[:, 0] * ux + d[:, 1] * uy
+    outside = (par < 0) | (par > ch)
+    par_terms = np.where(outside, np.abs(d[:, 0] * ux) + np.abs(d[:, 1] * uy), 0.0)
+    return 64 * EPS * float(np.max(cross_terms + par_terms))
+
+
 def is_int_array(a, ndim=1):
     return isinstance(a, np.ndarray) and a.ndim == ndim and (a.size == 0 or a.dtype.kind in 'iu')
 
